@@ -2,7 +2,9 @@
 (M) MC_Stats  (G) Gen_Stats scripts -> real stats.recorder / stats.Interceptor  (T) Trace_Stats."""
 import hashlib
 import json
+import os
 import random
+import re
 
 import vlib
 
@@ -13,10 +15,21 @@ META = {
             "two bound SSRCs and a foreign one) plus per-SSRC isolation; TLC enumerates every sequence of L events over a "
             "state-relative alphabet at the real 2^16 modulus and those behaviours, random walks over the same alphabet and "
             "seeded long mixed histories are executed on the real recorder and on the Interceptor (Bind*, SetNowFunc, Getter); "
-            "every recorded Get result must be explained by the specification (integers exactly, float/time fields within 2 us).",
+            "every recorded Get result must be explained by the specification (integers exactly, float/time fields within 2 us). "
+            "Specification growth (composition, no verdict of its own): RttLoop.tla composes SenderReport.tla, ReceiverReport.tla, "
+            "Stats.tla and the middle form of Ntp.tla into the RTCP round-trip-time loop (A: sender reports + statistics, B: receiver "
+            "reports, a network with arbitrary delays, re-ordering and loss, B's clock offset free) and is model checked for the "
+            "end-to-end property 'reported RTT = d1 + d2 within [-u, 2u), u = 2^-16 s, or no measurement' with negative controls; "
+            "TLC-enumerated and seeded scenarios at the real constants are executed on the REAL report.SenderInterceptor + "
+            "stats.Interceptor and report.ReceiverInterceptor wired back to back (harness/zz_verif_rttloop_test.go) and every hop's "
+            "logged output is validated by TLC (Trace_RttLoop). Only a disagreement between the statistics and Stats.tla's own "
+            "expectation for the LOGGED LSR/DLSR is a C19 verdict; a wrong SR time, LSR or DLSR is a NOTE naming the hop.",
     "note": "Trusted: the reading of the property in Stats.tla; pion/rtcp and pion/rtp marshalling; the harness' exact integer NTP "
             "conversion. Inbound jitter is not compared (not stated). Remote-outbound sender figures and the set of sender reports "
-            "an LSR may echo follow the code's DestinationSSRC matching (not stated by the property). Concurrency is C10.",
+            "an LSR may echo follow the code's DestinationSSRC matching (not stated by the property). Concurrency is C10. "
+            "RTT loop: both clocks run at the same rate on whole milliseconds; the statistics interceptor is registered before the "
+            "sender-report interceptor (otherwise it never sees the sender reports); the DLRR side of B is scripted (the library "
+            "has no RRTR/DLRR generator), its delay value is computed by TLC from ReceiverReport.tla.",
     "technique": "TLA+ spec + TLC model checking, TLC-generated behaviours replayed into the Go code, recorded traces validated by TLC",
     "design_ref": "DESIGN.md section 7 C19",
 }
@@ -31,7 +44,10 @@ RULE = ("scripts = TLC-enumerated behaviours of Gen_Stats at the real modulus (e
         "is executed on the real recorder ('rec') or through the Interceptor ('icpt') and every Get result is validated by TLC "
         "against Trace_Stats. distinct_nontrivial = number of distinct recorded traces (hashed without the level, so a script "
         "run on both levels counts once) in which some Get shows more than packet/byte counting: a non-zero loss figure, a "
-        "NACK/PLI/FIR counter, an applied remote report or a round-trip measurement.")
+        "NACK/PLI/FIR counter, an applied remote report or a round-trip measurement. Growth (coverage.growth.rttloop, "
+        "growth_notes; runs beside the above): scenarios of the RTT loop enumerated by TLC from Gen_RttLoop at the real constants + "
+        "seeded and hand-written ones, executed on the real sender-report + statistics and receiver-report interceptors wired back "
+        "to back, every hop validated by Trace_RttLoop.")
 
 ZERO = dict(s=0, p=0, w=0, hl=0, pl=0, now=0, rate=0, d="", pk=[])
 
@@ -242,7 +258,242 @@ def as_level(scripts, level):
     return [dict(sc, level=level) for sc in scripts]
 
 
-def run(ctx):
+# ------------------------------------------------------------------------------------------ specification growth
+# The RTCP round-trip-time loop as one specification (spec/RttLoop.tla): the four hop specifications (SenderReport, ReceiverReport,
+# Stats, the middle form of Ntp) composed, model checked for the end-to-end property, and bound to the real interceptors wired
+# back to back (harness/zz_verif_rttloop_test.go, validated by spec/Trace_RttLoop.tla).  Growth never decides on its own:
+#   hop "C19"  the statistics disagree with Stats.tla's OWN single-hop expectation for the logged LSR/DLSR (LastRR/DLRR) - that is
+#              what C19 states, so it goes through C19's verdict path (VIOLATION + replay);
+#   hop "C07" / "C06" / "LOOP"  the SR's NTP time, B's LSR/DLSR, or the end-to-end figure looks wrong while the statistics are
+#              consistent with what they were given: a NOTE naming the hop, so that the right property's check can be strengthened;
+#   hop "HARNESS"  the recorded forms are inconsistent with each other: infrastructure (exit 2).
+
+RL_FILES = ["zz_verif_rttloop_test.go"]
+RL_HOP_TEXT = {
+    "C07": "the NTP time of a sender report written by report.SenderInterceptor is not the one SenderReport.tla states for the "
+           "clock reading of the tick (C07 / C20 matter)",
+    "C06": "LSR / DLSR of a receiver report written by report.ReceiverInterceptor are not what ReceiverReport.tla accepts for the "
+           "sender report B was handed and B's clock (C06 matter)",
+    "LOOP": "every hop's output was accepted by its own specification but the reported round-trip time is not d1 + d2 within the "
+            "wire resolution (the composition RttLoop.tla itself is wrong: check MC_RttLoop)",
+    "CRASH": "the real interceptors panicked / did not return while carrying a well-formed RTCP loop",
+}
+_RL = re.compile(r'<<\s*"RTTLOOP",\s*(\d+),\s*"([A-Z0-9]+)"')
+
+
+def rl_step(a, i=0, ta=0, tb=0, v=0, h=0):
+    return dict(a=a, i=i, ta=ta, tb=tb, v=v, h=h)
+
+
+def rl_random_script(rng):
+    """A seeded scenario: only CHOOSES traffic and instants (arbitrary millisecond values, several reports in flight, re-ordering,
+    loss, both report pairs mixed).  The DLRR value of a dxr step is B's extended-report side, which the library does not have:
+    Trace_RttLoop checks it against ReceiverReport.tla before using it."""
+    wrapin = rng.choice([rng.randrange(1, 65536), rng.randrange(1, 8), 30000])
+    off = rng.choice([0, -3000, 86400000, rng.randrange(-10 ** 9, 10 ** 9)])
+    now = rng.choice([0, 0, 17, 400])
+    steps, undelivered, inflight, xr_at = [], [], [], []
+    nsr = nrr = 0
+    for _ in range(rng.randrange(6, 40)):
+        now += rng.choice([0, 1, 1, 2, 7, 15, 16, 20, 100, 250, 999, 1000, 1001, rng.randrange(3000), rng.randrange(20000)])
+        if now > 40000:      # (the totals of a scenario stay far below 2^31 us)
+            break
+        acts = ["sr"] * 3 + ["rr"] * 3 + ["xr"]
+        acts += ["dsr"] * 4 if undelivered else []
+        acts += ["drr"] * 4 + ["lose"] if inflight else []
+        acts += ["dxr"] * 2 if xr_at else []
+        a = rng.choice(acts)
+        if a == "sr":
+            nsr += 1
+            undelivered.append(nsr)
+            steps.append(rl_step("sr", nsr, ta=now))
+        elif a == "dsr":
+            i = undelivered.pop(rng.choice([0, 0, -1, rng.randrange(len(undelivered))]))
+            steps.append(rl_step("dsr", i, tb=now + off))
+        elif a == "rr":
+            nrr += 1
+            inflight.append(nrr)
+            steps.append(rl_step("rr", nrr, tb=now + off))
+        elif a == "drr":
+            j = inflight.pop(rng.choice([0, 0, -1, rng.randrange(len(inflight))]))
+            steps.append(rl_step("drr", j, ta=now))
+        elif a == "lose":
+            inflight.pop(rng.randrange(len(inflight)))
+        elif a == "xr":
+            xr_at.append(now)
+            steps.append(rl_step("xr", len(xr_at), ta=now))
+        else:
+            i = rng.choice([len(xr_at), len(xr_at), max(1, len(xr_at) - 4), max(1, len(xr_at) - 5), rng.randrange(1, len(xr_at) + 1)])
+            room = now - xr_at[i - 1]
+            h = min(room, rng.choice([0, 1, 15, 16, 999, 1000, 1001, rng.randrange(room + 1)]))
+            steps.append(rl_step("dxr", i, ta=now, v=h * 65536 // 1000, h=h))
+    while inflight and rng.random() < 0.8:
+        now += rng.choice([0, 1, 30, 1000])
+        steps.append(rl_step("drr", inflight.pop(0), ta=now))
+    return {"wrapin": wrapin, "steps": steps}
+
+
+def rl_special_scripts():
+    """Hand-written corner scenarios the alphabets do not reach."""
+    w = 65536000          # the middle form repeats after this many ms
+    return [
+        # two remembered SRs exactly 65536 s apart: the RR names the first, on the wire it names both (aliasing; no LOOP claim)
+        {"wrapin": 30000, "steps": [rl_step("sr", 1, ta=0), rl_step("dsr", 1, tb=5), rl_step("rr", 1, tb=10),
+                                    rl_step("sr", 2, ta=w), rl_step("drr", 1, ta=w + 10)]},
+        # an SR stamped in the very millisecond of the zero, one before, one after; each echoed
+        {"wrapin": 3, "steps": [rl_step("sr", 1, ta=2999), rl_step("sr", 2, ta=3000), rl_step("sr", 3, ta=3001),
+                                rl_step("dsr", 1, tb=3010), rl_step("rr", 1, tb=3020), rl_step("drr", 1, ta=3030),
+                                rl_step("dsr", 2, tb=3040), rl_step("rr", 2, tb=3050), rl_step("drr", 2, ta=3060),
+                                rl_step("dsr", 3, tb=3070), rl_step("rr", 3, tb=3080), rl_step("drr", 3, ta=3090)]},
+        # a hold of half an hour (DLSR near 1.2e8 units), both pairs
+        {"wrapin": 900, "steps": [rl_step("sr", 1, ta=0), rl_step("dsr", 1, tb=40), rl_step("xr", 1, ta=50),
+                                  rl_step("rr", 1, tb=1800040), rl_step("drr", 1, ta=1800100),
+                                  rl_step("dxr", 1, ta=1800200, v=1800000 * 65536 // 1000, h=1800000)]},
+        # registration order: behind the sender-report interceptor the statistics never see an SR leave - the loop stays open
+        {"wrapin": 30000, "sf": 1, "steps": [rl_step("sr", 1, ta=0), rl_step("dsr", 1, tb=5), rl_step("rr", 1, tb=1005),
+                                             rl_step("drr", 1, ta=1010), rl_step("xr", 1, ta=1020),
+                                             rl_step("dxr", 1, ta=1100, v=50 * 65536 // 1000, h=50)]},
+        # the same RR delivered twice (duplication on the network): two measurements
+        {"wrapin": 30000, "steps": [rl_step("sr", 1, ta=0), rl_step("dsr", 1, tb=7), rl_step("rr", 1, tb=1007),
+                                    rl_step("drr", 1, ta=1010), rl_step("drr", 1, ta=1500)]},
+    ]
+
+
+def rl_cov(ctx):
+    return ctx.cov.setdefault("growth", {"rttloop": {"scripts": 0, "events": 0, "reports_reaching_A": 0, "measurements": 0,
+                                                     "no_measurement": 0, "diverging_traces": {}}})["rttloop"]
+
+
+def rl_batch(ctx, scripts, tag):
+    """Execute RTT-loop scripts on the real interceptors and validate every hop with Trace_RttLoop.  Returns the hops that diverged."""
+    if not scripts:
+        return set()
+    safe = re.sub(r"[^A-Za-z0-9_.-]", "_", tag)
+    inp, outp = ctx.path("%s-%s.in" % (ctx.pid, safe)), ctx.path("%s-%s.trace" % (ctx.pid, safe))
+    vlib.write_ndjson(inp, scripts)
+    ov = vlib.overlay(ctx, vlib.harness_files("", "interceptor_test", RL_FILES), name="overlay-%s.json" % safe)
+    rc, out = vlib.go_test(ctx, "", ov, "^TestVerifRttLoopExec$", env={"VERIF_IN": inp, "VERIF_OUT": outp, "VERIF_SEED": ctx.seed},
+                           timeout=900)
+    if "VERIF-INFRA" in out:
+        raise vlib.Infra("harness error in TestVerifRttLoopExec:\n%s" % out[-2500:])
+    events = vlib.read_ndjson(outp) if os.path.exists(outp) else []
+    g = rl_cov(ctx)
+    g["scripts"] += len(scripts)
+    notes = ctx.cov.setdefault("growth_notes", [])
+    hops = set()
+
+    def note(hop, what, script, extra):
+        hops.add(hop)
+        g["diverging_traces"][hop] = g["diverging_traces"].get(hop, 0) + 1
+        if any(n.startswith("growth/rttloop-%s:" % hop) for n in notes):
+            return
+        rp = "(replay run)" if getattr(ctx, "replay_mode", False) else vlib.save_replay(
+            ctx, dict(extra, property=ctx.pid, kind="rttloop-" + hop, what=what, script=script, seed=ctx.seed))
+        notes.append("growth/rttloop-%s: %s; first: %s; replay=%s" % (hop, RL_HOP_TEXT[hop], what[:900], rp))
+
+    if rc != 0:
+        nres = sum(1 for e in events if e.get("a") == "reset")
+        culprit = scripts[nres - 1] if 0 < nres <= len(scripts) else None
+        m = re.search(r"(panic:.*|fatal error:.*|test timed out.*|--- FAIL.*)", out)
+        note("CRASH", (m.group(1)[:300] if m else "go test failed"), culprit, {"go_output": out[-6000:]})
+        return hops
+    v = vlib.validate(ctx, "Trace_RttLoop.tla", outp, timeout=1800)
+    if v.hw != v.n + 1 or "Error:" in v.out:
+        raise vlib.Infra("RTT-loop trace validator did not consume the trace (%s):\n%s" % (tag, v.out[-2500:]))
+    g["events"] += v.n
+    traces = vlib.split_traces(events)
+    for _, evs in traces:
+        last = 0, 0
+        for e in evs:
+            if e["a"] in ("drr", "dxr") and e.get("out"):
+                g["reports_reaching_A"] += 1
+                cur = e["out"]["rn"], e["out"]["sm"]
+                g["measurements" if cur != last else "no_measurement"] += 1
+                last = cur
+    seen_traces = set()
+    for m in _RL.finditer(v.out):
+        line, hop = int(m.group(1)), m.group(2)
+        txt = v.out[m.start():m.start() + 3000]
+        end = txt.find("\n<<", 3)
+        txt = " ".join((txt[:end] if end > 0 else txt).split())[:1200]
+        idx = max(i for i, (start, _) in enumerate(traces) if start + 1 <= line)
+        if idx in seen_traces:
+            continue
+        seen_traces.add(idx)
+        tr, off = traces[idx][1], line - 1 - traces[idx][0]
+        what = "event #%d %s; TLC: %s" % (off, json.dumps(tr[off])[:400], txt)
+        if hop == "HARNESS":
+            raise vlib.Infra("RTT-loop harness logged inconsistent forms (%s): %s" % (tag, what))
+        if hop == "C19":
+            # the single-hop expectation of Stats.tla, fed with the LSR/DLSR that were on the wire, disagrees with the code
+            hops.add(hop)
+            g["diverging_traces"][hop] = g["diverging_traces"].get(hop, 0) + 1
+            if len([1 for w_, _ in ctx.violations if w_.startswith("RTT loop")]) < 6:
+                vlib.report_violation(ctx, "RTT loop (%s): the statistics after a report disagree with Stats.tla fed with the logged "
+                                      "LSR/DLSR: %s" % (tag, what),
+                                      {"kind": "rttloop", "script": scripts[idx], "trace": tr[:off + 1], "failing_event_index": off,
+                                       "tlc": txt})
+        else:
+            note(hop, what, scripts[idx], {"trace": tr[:off + 1], "failing_event_index": off, "tlc": txt})
+    ctx.log("(T) %s: %d RTT-loop traces / %d events validated in %.1fs, diverging hops: %s" % (
+        tag, len(traces), v.n, v.wall, sorted(hops) or "none"))
+    if traces:
+        vlib.add_samples(ctx, [traces[len(traces) // 2][1][:12]], 1)
+    return hops
+
+
+def rl_print_notes(ctx):
+    for note in ctx.cov.get("growth_notes", []):
+        print("NOTE: property=%s %s" % (ctx.pid, note), flush=True)
+
+
+def rtt_loop(ctx, rng):
+    quick = ctx.quick
+    mc = "MC_RttLoop.tla"
+
+    def cfg(**kw):
+        return vlib.cfg_variant(ctx, "MC_RttLoop.cfg", {k: str(v).replace("'", '"') for k, v in kw.items()})
+    # (M) the composition has the end-to-end property
+    vlib.model_check(ctx, mc, "MC_RttLoop.cfg", workers=4,
+                     note="RR pair, K=1, 2 SRs / 1 RR in flight, DLSR +-1, wrap after 2 s: LoopOK, Separate, Aligned")
+    vlib.model_check(ctx, mc, cfg(Variant='"dlsr_ms"', K=2, DlsrTol="FALSE"), workers=2,
+                     expect_violation="Invariant LoopOK is violated", note="negative control: DLSR in milliseconds")
+    if not quick:
+        vlib.model_check(ctx, mc, "MC_RttLoop_offs.cfg", workers=4, note="three clock offsets")
+        vlib.model_check(ctx, mc, cfg(Path='"xr"'), workers=4, note="RRTR / DLRR pair")
+        vlib.model_check(ctx, mc, cfg(MaxRep=2, Dts="{0, 1000}", MaxT=9000), workers=4, note="2 SRs / 2 RRs, re-ordered RRs, DLSR +-1")
+        vlib.model_check(ctx, mc, cfg(K=2, MaxOut=3, DlsrTol="FALSE", MaxT=9000), workers=4, timeout=1800,
+                         note="3 SRs in flight, K=2 (eviction), exact DLSR: also Tight (error in [0, u))")
+        vlib.model_check(ctx, mc, cfg(K=2, MaxOut=3, MaxRep=2, Dts="{0, 1000}", DlsrTol="FALSE", MaxT=3000), workers=4,
+                         note="3 SRs / 2 RRs in flight, K=2")
+        vlib.model_check(ctx, mc, cfg(K=2, MaxOut=3, MaxRep=2, Dts="{0, 1000}", WrapIns="{1}", MaxT=2000), workers=4,
+                         note="3 SRs / 2 RRs, wrap after 1 s, DLSR +-1")
+        vlib.model_check(ctx, mc, cfg(Path='"xr"', K=2, MaxOut=3, MaxRep=2, Dts="{0, 1000}", DlsrTol="FALSE", MaxT=3000), workers=4,
+                         note="RRTR / DLRR pair, 3 / 2 in flight")
+        for var, what in (("wrong_sr", "the delay is taken against the newest remembered SR instead of the one LSR names"),
+                          ("no_trunc", "A compares LSR with untruncated seconds (no middle-form modulus)")):
+            vlib.model_check(ctx, mc, cfg(Variant='"%s"' % var, K=2, DlsrTol="FALSE"), workers=2,
+                             expect_violation="Invariant LoopOK is violated", note="negative control: " + what)
+        for inv in ("NegAcrossWrap", "NegEvicted", "NegOlder"):
+            vlib.model_check(ctx, mc, "MC_RttLoop_%s.cfg" % inv, workers=2, expect_violation="Invariant %s is violated" % inv,
+                             note="reachability control")
+    # (G) scenarios enumerated by TLC at the real constants + seeded scenarios, executed on the real interceptors, (T) validated
+    beh = vlib.generate(ctx, "Gen_RttLoop.tla", vlib.cfg_variant(ctx, "Gen_RttLoop.cfg", {"Suite": '"quick"' if quick else '"thorough"'}),
+                        workers=4)
+    rnd = [rl_random_script(rng) for _ in range(150 if quick else 4000)] + rl_special_scripts()
+    chunk = 25000
+    allsc = beh + rnd
+    for i in range(0, len(allsc), chunk):
+        rl_batch(ctx, allsc[i:i + chunk], "GROW-rttloop" if len(allsc) <= chunk else "GROW-rttloop-%d" % (i // chunk))
+    ctx.assumptions += [
+        "RTT loop (growth): A's and B's clocks advance at the same rate on whole milliseconds (their offset is free); the statistics "
+        "interceptor is registered before the sender-report interceptor (the other order, in which the statistics never see a sender "
+        "report leave and no round-trip time is ever measured from receiver reports, is specified and executed once, sf = 1); tolerance 2 us per measurement (C20 grants ToTime(ToNTP(t)) "
+        "1 us, the harness rounds to 1 us), n x 2 us on the total of n measurements; loops shorter than 35 min (32-bit microseconds)",
+    ]
+
+
+def main_flow(ctx):
     rng = random.Random(ctx.seed)
     # (M) the specification against the declarative recount, plus reachability controls
     if ctx.quick:
@@ -275,6 +526,27 @@ def run(ctx):
     nrec, nic, length = (36, 24, 340) if ctx.quick else (500, 300, 500)
     rs = [random_script(rng, "rec", length) for _ in range(nrec)] + [random_script(rng, "icpt", length) for _ in range(nic)]
     run_batch(ctx, rs, "T-random")
+
+
+def run(ctx):
+    # the property's own check and the growth part are independent: they run side by side (own scratch directories, own random
+    # streams, so the scripts of the property's check do not depend on the growth part) and are merged by vlib.run_parallel
+    kids = []
+
+    def job(fn):
+        def go(child):
+            kids.append(child)
+            fn(child)
+        return go
+    try:
+        vlib.run_parallel(ctx, [job(main_flow), job(lambda c: rtt_loop(c, random.Random(ctx.seed * 1000003 + 12)))], max_workers=2)
+    finally:
+        for child in kids:
+            for k, v in child.cov.get("growth", {}).items():
+                ctx.cov.setdefault("growth", {})[k] = v
+            ctx.cov.setdefault("growth_notes", []).extend(child.cov.get("growth_notes", []))
+            ctx.assumptions += child.assumptions
+    rl_print_notes(ctx)
     ctx.assumptions += [
         "the TLA+ module Stats is the reading of the property (a recount per bound SSRC; NACK/PLI addressed by media SSRC, FIR by "
         "its entries; remote figures from the most recent reception report / DLRR sub-block naming the SSRC; RTT = arrival - "
@@ -289,5 +561,12 @@ def run(ctx):
 
 
 def replay(ctx, path):
-    run_batch(ctx, vlib.replay_scripts(path), "replay")
+    scripts = vlib.replay_scripts(path)
+    loop = [sc for sc in scripts if "wrapin" in sc]
+    rest = [sc for sc in scripts if "wrapin" not in sc]
+    if rest:
+        run_batch(ctx, rest, "replay")
+    if loop:
+        rl_batch(ctx, loop, "replay-rttloop")
+        rl_print_notes(ctx)
     return vlib.finish(ctx, "model_checking", RULE)
